@@ -145,6 +145,194 @@ def _prefix_test(F, fn, n, prefixes):
     return None
 
 
+def _local_names(fn):
+    """Names bound inside fn (parameters and plain-name stores), minus `global` declarations."""
+    out = set(fn.params)
+    for n in fn.cfg().nodes:
+        out |= {x for x in node_stores(n) if "." not in x and not x.endswith("[]")}
+    for x in func_own_nodes(fn):
+        if isinstance(x, ast.Global):
+            out -= set(x.names)
+    return out
+
+
+_CONTAINER_READS = {"get", "pop", "setdefault", "__getitem__"}
+
+
+class _ParseWalk:
+    """Where the values returned by uri.from_string come from.
+
+    Starting at the entry point, every value a reachable `return` may give is followed back through local copies
+    (all reaching definitions) and through calls of package-local helper functions that receive the context
+    parameter unchanged.  The leaves are
+      sites  - (fn, ctx param, node, K, call): K.init_from_string(..) / K(..) of a cap class, evaluated at `node`;
+      benign - UnknownURI(..) / None;
+      lost   - (fn, node, message): a value that is not a function of this call's context: read from a container
+               that outlives the call under a key that does not depend on the context parameter, read from
+               module-level state, or produced by a helper that is not given the context.
+    Anything else cannot be classified and stops the analysis (exit 2)."""
+
+    def __init__(self, idx, byq):
+        self.idx, self.byq = idx, byq
+        self.sites, self.lost, self.leaves = [], [], []
+        self.funcs = {}          # qual -> (fn, ctx param)
+        self._done = set()
+
+    def walk(self, fn, di):
+        old = self.funcs.get(fn.qual)
+        if old is not None:
+            if old[1] != di:
+                raise AnalysisError("%s is reached with two different context parameters" % fn.qual)
+            return
+        if di not in fn.params:
+            raise AnchorVanished("%s has no %s parameter" % (fn.qual, di))
+        self.funcs[fn.qual] = (fn, di)
+        cfg = fn.cfg()
+        reach = cfg.reachable_nodes()
+        env = (fn, di, cfg, FlowNorm(fn), _local_names(fn))
+        n_ret = 0
+        for n in cfg.find(is_return):
+            if n.id in reach:
+                n_ret += 1
+                self.value(env, n, n.ast.value, 0)
+        if not n_ret:
+            raise AnchorVanished("%s has no reachable return" % fn.qual)
+
+    def _leaf(self, fn, n, what):
+        self.leaves.append((fn, n, what))
+
+    def _lose(self, fn, n, msg):
+        self._leaf(fn, n, "lost")
+        self.lost.append((fn, n, msg))
+
+    def value(self, env, n, e, depth):
+        (fn, di, cfg, fnorm, locs) = env
+        key = (fn.qual, n.id, id(e))
+        if key in self._done:
+            return
+        self._done.add(key)
+        if depth > 8:
+            raise AnalysisError("%s: definition chain of a returned value is too long" % fn.qual)
+        if e is None or (isinstance(e, ast.Constant) and e.value is None):
+            return self._leaf(fn, n, "None")
+        if isinstance(e, ast.IfExp):
+            self.value(env, n, e.body, depth + 1)
+            return self.value(env, n, e.orelse, depth + 1)
+        if isinstance(e, ast.BoolOp):
+            for v in e.values:
+                self.value(env, n, v, depth + 1)
+            return
+        if isinstance(e, ast.NamedExpr):
+            return self.value(env, n, e.value, depth + 1)
+        if isinstance(e, ast.Name):
+            if e.id not in locs:
+                return self._lose(fn, n, "%s returns the module-level value %s, which does not depend on this call's %s "
+                                  "context" % (short(fn), e.id, di))
+            defs = fnorm.rd.get(n.id, {}).get(e.id, frozenset())
+            if not defs:
+                raise AnalysisError("%s: no definition of %s reaches line %s" % (fn.qual, e.id, n.lineno))
+            for d in sorted(defs):
+                if d == C.PARAM_DEF:
+                    raise AnalysisError("%s returns its own parameter %s" % (fn.qual, e.id))
+                dn = cfg.nodes[d]
+                dv = fnorm._def_value(dn, e.id)
+                if dv is None:
+                    for x in (own_nodes(dn.ast) if dn.ast is not None else []):
+                        if isinstance(x, ast.NamedExpr) and isinstance(x.target, ast.Name) and x.target.id == e.id:
+                            dv = x.value
+                if dv is None:
+                    raise AnalysisError("%s: cannot follow the definition of %s at line %s" % (fn.qual, e.id, dn.lineno))
+                self.value(env, dn, dv, depth + 1)
+            return
+        if isinstance(e, ast.Subscript):
+            path = attr_path(e.value)
+            if path and path.split(".")[0] not in locs:
+                return self.container(env, n, path, e.slice, e)
+            raise AnalysisError("%s returns %s: cannot classify" % (fn.qual, src(fn, e)))
+        if isinstance(e, ast.Call):
+            return self.call(env, n, e, depth)
+        raise AnalysisError("%s returns %s: cannot classify" % (fn.qual, src(fn, e)))
+
+    def call(self, env, n, e, depth):
+        (fn, di, cfg, fnorm, locs) = env
+        idx = self.idx
+        f = e.func
+        if isinstance(f, ast.Attribute) and f.attr == "init_from_string":
+            k = idx.resolve_expr(fn.module, f.value)
+            if isinstance(k, ClassInfo) and k.qual in self.byq:
+                self._leaf(fn, n, k.name)
+                self.sites.append((fn, di, n, k, e))
+                return
+            if isinstance(k, ClassInfo) and k.name == "UnknownURI":
+                return self._leaf(fn, n, "UnknownURI")
+            raise AnalysisError("%s: %s is not a cap class" % (fn.qual, src(fn, f.value)))
+        tgt = idx.resolve_expr(fn.module, f)
+        if isinstance(tgt, ClassInfo):
+            if tgt.qual in self.byq:
+                self._leaf(fn, n, tgt.name)
+                self.sites.append((fn, di, n, tgt, e))
+                return
+            if tgt.name == "UnknownURI":
+                return self._leaf(fn, n, "UnknownURI")
+            raise AnalysisError("%s returns a %s: not a cap class" % (fn.qual, tgt.name))
+        if isinstance(tgt, FuncInfo) and tgt.cls is None and not isinstance(tgt.node, ast.Lambda):
+            ps = first_positional_params(tgt)
+            bound = [(ps[i] if i < len(ps) else None, a) for i, a in enumerate(e.args) if not isinstance(a, ast.Starred)]
+            bound += [(kw.arg, kw.value) for kw in e.keywords if kw.arg is not None]
+            if any(isinstance(a, ast.Starred) for a in e.args) or any(kw.arg is None for kw in e.keywords):
+                raise AnalysisError("%s calls %s with */** arguments: cannot follow the context" % (fn.qual, tgt.name))
+            carries = [p for (p, a) in bound if p is not None and fnorm.norm(n, a) == di]
+            if len(carries) == 1:
+                return self.walk(tgt, carries[0])
+            if any(di in depends_on(fn, a) for (_p, a) in bound):
+                raise AnalysisError("%s passes its %s context to %s only in a derived form: cannot follow" % (
+                    fn.qual, di, tgt.name))
+            return self._lose(fn, n, "%s returns %s, but the helper %s is not given this call's %s context" % (
+                short(fn), src(fn, e), tgt.name, di))
+        if isinstance(f, ast.Attribute) and f.attr in _CONTAINER_READS and e.args:
+            path = attr_path(f.value)
+            if path and path.split(".")[0] not in locs:
+                return self.container(env, n, path, e.args[0], e)
+        raise AnalysisError("%s returns %s: cannot classify" % (fn.qual, src(fn, e)))
+
+    def container(self, env, n, path, key, e):
+        """A value remembered in a container that outlives the call (module / object state)."""
+        (fn, di, cfg, fnorm, locs) = env
+        if di not in depends_on(fn, key):
+            return self._lose(fn, n, "%s returns %s: a cap remembered from an earlier call in %s and looked up by a key "
+                              "(%s) that does not include this call's %s context" % (
+                                  short(fn), src(fn, e), path, src(fn, key), di))
+        # keyed by the context: every entry ever put in must be keyed and produced the same way
+        n_st = 0
+        for g in self.idx.funcs.values():
+            if g.module is not fn.module:
+                continue
+            for x in func_own_nodes(g):
+                hit = isinstance(x, ast.Subscript) and isinstance(x.ctx, (ast.Store, ast.Del)) and attr_path(x.value) == path
+                upd = isinstance(x, ast.Call) and isinstance(x.func, ast.Attribute) and attr_path(x.func.value) == path \
+                    and x.func.attr in ("update", "setdefault", "__setitem__")
+                if (hit or upd) and g is not fn:
+                    raise AnalysisError("%s is also written by %s: cannot follow" % (path, g.qual))
+                if upd:
+                    raise AnalysisError("%s.%s(..) in %s: cannot follow" % (path, x.func.attr, g.qual))
+        for sn in cfg.nodes:
+            a = sn.ast
+            if sn.kind != "stmt" or not isinstance(a, ast.Assign):
+                continue
+            for t in a.targets:
+                if isinstance(t, ast.Subscript) and attr_path(t.value) == path:
+                    n_st += 1
+                    if di not in depends_on(fn, t.slice):
+                        self._lose(fn, sn, "%s remembers a parsed cap in %s under a key (%s) that does not include the %s "
+                                   "context" % (short(fn), path, src(fn, t.slice), di))
+                    else:
+                        self.value(env, sn, a.value, 1)
+        if not n_st:
+            raise AnalysisError("%s reads %s but no store into it was found" % (fn.qual, path))
+        self._leaf(fn, n, "memo[%s]" % di)
+
+
+
 # --------------------------------------------------------------------- run
 def run(ctx: Context):
     idx = ctx.idx
@@ -377,112 +565,120 @@ def run(ctx: Context):
                 r.violation(ci.qual, w.loc(), "wrap_dirnode_cap has no case for %s" % ci.name)
 
     # -- 5. from_string guards --------------------------------------------------
-    with ctx.rule("C16.5", "R3", "from_string: parse of a writeable kind only under can_be_writeable, of a mutable kind only "
-                  "under can_be_mutable; flags start as `not deep_immutable`, 'imm.' clears both, 'ro.' clears "
-                  "can_be_writeable", expected=19) as r:
-        fn = idx.func("uri:from_string")
-        cfg = fn.cfg()
-        reach = cfg.reachable_nodes()
-        fnorm = FlowNorm(fn)
-        if "deep_immutable" not in fn.params:
-            raise AnchorVanished("from_string has no deep_immutable parameter")
+    _pw = {}
+
+    def parse_walk():
+        if "w" not in _pw:
+            fs = idx.func("uri:from_string")
+            if "deep_immutable" not in fs.params:
+                raise AnchorVanished("from_string has no deep_immutable parameter")
+            w = _ParseWalk(idx, byq)
+            w.walk(fs, "deep_immutable")
+            _pw["w"] = w
+        return _pw["w"]
+
+    with ctx.rule("C16.5", "R3", "from_string (and the helpers it returns through): parse of a writeable kind only under "
+                  "can_be_writeable, of a mutable kind only under can_be_mutable; flags start as `not deep_immutable`, "
+                  "'imm.' clears both, 'ro.' clears can_be_writeable", expected=19) as r:
+        pw = parse_walk()
         FLAGS = ("can_be_mutable", "can_be_writeable")
+        by_fn = {}
+        for (fn, di, n, k, call) in pw.sites:
+            by_fn.setdefault(fn.qual, (fn, di, []))[2].append((n, k))
+        if not by_fn and not pw.lost:
+            raise AnchorVanished("no K.init_from_string(..) is returned by from_string or its helpers")
+        for q in sorted(by_fn):
+            (fn, di, sites) = by_fn[q]
+            cfg = fn.cfg()
+            fnorm = FlowNorm(fn)
 
-        def truth_of(name):
-            def g(n, lab):
-                f = fnorm.edge_fact(n, lab)
-                return bool(f) and f[0] == "truth" and f[1] == name
-            return g
-        n_ret = 0
-        for n in cfg.find(is_return):
-            v = n.ast.value
-            if n.id not in reach or not (isinstance(v, ast.Call) and call_tail(v) == "init_from_string"):
-                continue
-            k = idx.resolve_expr(fn.module, v.func.value) if isinstance(v.func, ast.Attribute) else None
-            if not isinstance(k, ClassInfo) or k.qual not in byq:
-                continue            # C15.6 reports
-            n_ret += 1
-            r.site(fn, n.ast, k.name)
-            r.count(len(cfg.nodes))
-            target = (lambda x, _n=n: x is _n)
-            if RO[k.qual] is not True:
-                bad = find_path_avoiding(cfg, target, gate_edge=truth_of("can_be_writeable"), kill=stores("can_be_writeable"))
-                for (t, w) in bad:
-                    r.violation(k.qual, fn.loc(n.ast), "from_string returns a writeable %s without can_be_writeable: an "
-                                "'imm.'/'ro.' prefix or a deep-immutable context is ignored (path: %s)" % (k.name, w.brief()), w)
-            elif MUT[k.qual] is not False:
-                g1, g2 = truth_of("can_be_mutable"), truth_of("can_be_writeable")
-                bad = find_path_avoiding(cfg, target, gate_edge=lambda a, b: g1(a, b) or g2(a, b), kill=stores_any(FLAGS))
-                for (t, w) in bad:
-                    r.violation(k.qual, fn.loc(n.ast), "from_string returns a mutable %s without can_be_mutable: an 'imm.' "
-                                "prefix or a deep-immutable context is ignored (path: %s)" % (k.name, w.brief()), w)
-        if n_ret == 0:
-            raise AnchorVanished("no K.init_from_string returns in from_string")
-        # flags at the dispatch
-        r.site(fn, None, "flags")
-        init_nf = norm_src("not deep_immutable")
+            def truth_of(name, fnorm=fnorm):
+                def g(n, lab):
+                    f = fnorm.edge_fact(n, lab)
+                    return bool(f) and f[0] == "truth" and f[1] == name
+                return g
+            for (n, k) in sites:
+                r.site(fn, n.ast, k.name)
+                r.count(len(cfg.nodes))
+                target = (lambda x, _n=n: x is _n)
+                if RO[k.qual] is not True:
+                    bad = find_path_avoiding(cfg, target, gate_edge=truth_of("can_be_writeable"), kill=stores("can_be_writeable"))
+                    for (t, w) in bad:
+                        r.violation(k.qual, fn.loc(n.ast), "%s returns a writeable %s without can_be_writeable: an "
+                                    "'imm.'/'ro.' prefix or a deep-immutable context is ignored (path: %s)" % (
+                                        fn.name, k.name, w.brief()), w)
+                elif MUT[k.qual] is not False:
+                    g1, g2 = truth_of("can_be_mutable"), truth_of("can_be_writeable")
+                    bad = find_path_avoiding(cfg, target, gate_edge=lambda a, b, g1=g1, g2=g2: g1(a, b) or g2(a, b),
+                                             kill=stores_any(FLAGS))
+                    for (t, w) in bad:
+                        r.violation(k.qual, fn.loc(n.ast), "%s returns a mutable %s without can_be_mutable: an 'imm.' "
+                                    "prefix or a deep-immutable context is ignored (path: %s)" % (fn.name, k.name, w.brief()), w)
+            # flags at the dispatch
+            r.site(fn, None, "flags")
+            init_nf = norm_src("not %s" % di)
 
-        def is_dispatch(n):
-            c = n.ast
-            if n.kind == "test" and isinstance(c, ast.Call) and call_tail(c) == "startswith" and len(c.args) == 1:
-                try:
-                    v = F.fold(c.args[0], fn.module, None)
-                except NotConstant:
-                    return False
-                return isinstance(v, bytes) and v.startswith(b"URI:")
-            return False
+            def is_dispatch(n, fn=fn):
+                c = n.ast
+                if n.kind == "test" and isinstance(c, ast.Call) and call_tail(c) == "startswith" and len(c.args) == 1:
+                    try:
+                        v = F.fold(c.args[0], fn.module, None)
+                    except NotConstant:
+                        return False
+                    return isinstance(v, bytes) and v.startswith(b"URI:")
+                return False
 
-        def transfer(n, lab, nxt, st):
-            cbm, cbw, imm, ro = st
-            if is_dispatch(n):
-                return None             # the flags are examined on arrival at the first dispatch test
-            if n.kind == "stmt" and isinstance(n.ast, (ast.Assign, ast.AugAssign, ast.AnnAssign)):
-                stored = node_stores(n)
-                val = getattr(n.ast, "value", None)
-                if isinstance(n.ast, ast.Assign) and isinstance(val, ast.Constant) and val.value is False:
-                    a = "F"
-                elif isinstance(n.ast, ast.Assign) and val is not None and norm_plain(val) == init_nf:
-                    a = "init"
-                else:
-                    a = "?"
-                if "can_be_mutable" in stored:
-                    cbm = a
-                if "can_be_writeable" in stored:
-                    cbw = a
-                if "deep_immutable" in stored:
-                    cbm = cbw = "?"
-            pt = _prefix_test(F, fn, n, PREFIX)
-            if pt is not None and isinstance(lab, tuple) and lab[0] == "T":
-                if pt[1] == "imm":
-                    imm = True
-                else:
-                    ro = True
-            return (cbm, cbw, imm, ro)
-        visited, parent = explore(cfg, ("?", "?", False, False), transfer)
-        r.count(len(visited))
-        seen_dispatch = False
-        reported = set()
-        for (nid, st) in sorted(visited, key=lambda x: (x[0], str(x[1]))):
-            n = cfg.nodes[nid]
-            if not is_dispatch(n):
-                continue
-            seen_dispatch = True
-            cbm, cbw, imm, ro = st
-            msg = None
-            if cbm not in ("init", "F") or cbw not in ("init", "F"):
-                msg = "the flags are not `not deep_immutable` / False (can_be_mutable=%s, can_be_writeable=%s)" % (cbm, cbw)
-            elif imm and (cbm != "F" or cbw != "F"):
-                msg = "after an 'imm.' prefix the cap can still be %s" % ("mutable" if cbm != "F" else "writeable")
-            elif ro and cbw != "F":
-                msg = "after a 'ro.' prefix the cap can still be writeable"
-            if msg and msg not in reported:
-                reported.add(msg)
-                w = witness(cfg, parent, (nid, st))
-                r.violation(fn, fn.loc(n.ast), "from_string reaches the dispatch where %s (path: %s)" % (msg, w.brief()), w)
-        if not seen_dispatch:
-            raise AnchorVanished("from_string dispatch not reached")
-        pts = {(_prefix_test(F, fn, n, PREFIX) or (None, None))[1] for n in cfg.nodes}
-        r.require({"imm", "ro"} <= pts, fn, fn.loc(), "from_string does not test both alleged prefixes")
+            def transfer(n, lab, nxt, st, fn=fn, di=di, init_nf=init_nf, is_dispatch=is_dispatch):
+                cbm, cbw, imm, ro = st
+                if is_dispatch(n):
+                    return None             # the flags are examined on arrival at the first dispatch test
+                if n.kind == "stmt" and isinstance(n.ast, (ast.Assign, ast.AugAssign, ast.AnnAssign)):
+                    stored = node_stores(n)
+                    val = getattr(n.ast, "value", None)
+                    if isinstance(n.ast, ast.Assign) and isinstance(val, ast.Constant) and val.value is False:
+                        a = "F"
+                    elif isinstance(n.ast, ast.Assign) and val is not None and norm_plain(val) == init_nf:
+                        a = "init"
+                    else:
+                        a = "?"
+                    if "can_be_mutable" in stored:
+                        cbm = a
+                    if "can_be_writeable" in stored:
+                        cbw = a
+                    if di in stored:
+                        cbm = cbw = "?"
+                pt = _prefix_test(F, fn, n, PREFIX)
+                if pt is not None and isinstance(lab, tuple) and lab[0] == "T":
+                    if pt[1] == "imm":
+                        imm = True
+                    else:
+                        ro = True
+                return (cbm, cbw, imm, ro)
+            visited, parent = explore(cfg, ("?", "?", False, False), transfer)
+            r.count(len(visited))
+            seen_dispatch = False
+            reported = set()
+            for (nid, st) in sorted(visited, key=lambda x: (x[0], str(x[1]))):
+                n = cfg.nodes[nid]
+                if not is_dispatch(n):
+                    continue
+                seen_dispatch = True
+                cbm, cbw, imm, ro = st
+                msg = None
+                if cbm not in ("init", "F") or cbw not in ("init", "F"):
+                    msg = "the flags are not `not %s` / False (can_be_mutable=%s, can_be_writeable=%s)" % (di, cbm, cbw)
+                elif imm and (cbm != "F" or cbw != "F"):
+                    msg = "after an 'imm.' prefix the cap can still be %s" % ("mutable" if cbm != "F" else "writeable")
+                elif ro and cbw != "F":
+                    msg = "after a 'ro.' prefix the cap can still be writeable"
+                if msg and msg not in reported:
+                    reported.add(msg)
+                    w = witness(cfg, parent, (nid, st))
+                    r.violation(fn, fn.loc(n.ast), "%s reaches the dispatch where %s (path: %s)" % (fn.name, msg, w.brief()), w)
+            if not seen_dispatch:
+                raise AnchorVanished("%s dispatch not reached" % fn.name)
+            pts = {(_prefix_test(F, fn, n, PREFIX) or (None, None))[1] for n in cfg.nodes}
+            r.require({"imm", "ro"} <= pts, fn, fn.loc(), "%s does not test both alleged prefixes" % fn.name)
 
     # -- 6. UnknownNode ---------------------------------------------------------
     with ctx.rule("C16.6", "R3", "UnknownNode.__init__: rw_uri only where deep_immutable is false; every ro_uri stored "
